@@ -238,6 +238,11 @@ pub trait Prop: Sync {
     fn assumptions(&self) -> Vec<String>;
     fn plan(&self, tier: Tier) -> Vec<GenSpec>;
     fn run_case(&self, cx: &mut Cx);
+    /// A generator of this property whose single case is small enough to run under an interpreter (Miri): `lvh one <ID> --gen miri-sample
+    /// --n k` runs case k of it. None: the property has its own `miri-sample` generator, or none that is small enough.
+    fn miri_gen(&self) -> Option<&'static str> {
+        None
+    }
     /// Post-merge verdict adjustments (non-vacuity checks -> inconclusive)
     fn finish(&self, _total: &mut Rec, _tier: Tier) {}
     /// Wall-clock watchdog for the whole run, seconds. Firing is inconclusive.
